@@ -701,7 +701,7 @@ def r20_7(ctx):
             kinds = [k for k in kinds if k[0] != "CONNECT"]
         if mode == "Socks5Mode":
             kinds = [k for k in kinds if k[0] != "CONNECT"] + steps_socks
-        for length in (1, 2, 3):
+        for length in ((1, 2, 3) if ctx.tier == "thorough" else (1, 2)):
             for seq in itertools.product(kinds, repeat=length):
                 it = Interp(ctx.model, trusted_modules={"binascii": binascii, "base64": base64, "weakref": __import__("weakref"), "re": __import__("re")},
                             externals={"http.Response.make": lambda status_code=200, content=b"", headers=(): Rec("Response", status_code=status_code, headers=headers, content=content)})
@@ -769,7 +769,7 @@ def r20_7(ctx):
                  "a request on a connection that never presented valid credentials is let through (or a valid one is refused / keeps its credential header)")
     if not bad:
         ctx.ok("R20.7", f"{n} hook invocations over all histories of length <= 3 x 4 credential classes x {len(modes)} modes agree with the reference")
-    ctx.bounds.append("R20.7: histories of at most 3 hook invocations on one connection")
+    ctx.bounds.append("R20.7: histories of at most 2 (quick) / 3 (thorough) hook invocations on one connection, plus a probe on a second connection")
 
 
 def check(ctx):
